@@ -36,6 +36,7 @@ pub fn cells(tier: Tier) -> Vec<CellPlan> {
     add(cells::vis_despawns("C01", Vis::Blacklist), 0, 1, 2, 1.0);
     add(cells::same_frame3("C01"), 1, 1, 2, 1.0);
     add(cells::wrap("C01", 4), 1, 2, 4, 1.0);
+    add(cells::reinsert("C01"), 1, 2, 4, 1.0);
     v
 }
 
